@@ -67,6 +67,30 @@ func fieldLoad(v ssa.Value) (*types.Var, ssa.Value, bool) {
 }
 
 func checkC13(p *Program, r *Report) {
+	// round 7: the constructors of package gcs refuse a filter for P only when P > 32 (C14-agent7-m1: `P >= maxP` in
+	// FromBytes refused what BuildGCSFilter had produced), and BuildGCSFilter refuses for nothing but P (C13-agent7-m2: an
+	// "overflow guard" N > MaxUint32/M refused every set with N·M ≥ 2^32)
+	for _, name := range []string{"BuildGCSFilter", "FromBytes", "FromNBytes", "FromPBytes", "FromNPBytes"} {
+		gf := p.Func("gcs", name)
+		if gf == nil {
+			continue
+		}
+		var pp *ssa.Parameter
+		for _, pa := range gf.Params {
+			if bt, ok := pa.Type().Underlying().(*types.Basic); ok && bt.Kind() == types.Uint8 {
+				pp = pa
+			}
+		}
+		if pp == nil {
+			continue
+		}
+		pv := ssa.Value(pp)
+		refusalsOutside(p, r, "C13.range", gf, func(v ssa.Value) bool { return v == pv }, func(lc *LinCtx) (Lin, bool) { return lc.Lin(pv), true }, 0, 32, "0..32")
+		if name == "BuildGCSFilter" {
+			gcsBuildRefusals(p, r, "C13.range", gf, pp)
+		}
+	}
+	r.Floor("C13.range", 2)
 	// round 6 (systematic): no unguarded mutable package-level state behind this property's functions (§2.9)
 	sharedStateRule(p, r, NewEffects(p), "C13.shared", []string{"gcs/gcs.go"})
 	r.Floor("C13.shared", 0)
